@@ -32,6 +32,7 @@ var callTypes = map[string]reflect.Type{
 	"ch":    reflect.TypeOf((chan int)(nil)),
 	"named": reflect.TypeOf(namedInt(0)),
 	"perr":  reflect.TypeOf((*myErr)(nil)),
+	"arr":   reflect.TypeOf([2]int{}),
 }
 
 // mkVal builds the Go value for a value token ("nil", "ty=k", "ty=nil"); ok=false if malformed.
@@ -49,7 +50,7 @@ func mkVal(tok string) (v interface{}, ok bool) {
 	}
 	if p[1] == "nil" {
 		switch p[0] {
-		case "int", "str", "named":
+		case "int", "str", "named", "arr":
 			return nil, false
 		}
 		return reflect.Zero(t).Interface(), true
@@ -75,6 +76,8 @@ func mkVal(tok string) (v interface{}, ok bool) {
 		return namedInt(k), true
 	case "perr":
 		return &myErr{k}, true
+	case "arr":
+		return [2]int{k, k}, true
 	}
 	return nil, false
 }
@@ -134,6 +137,8 @@ func canonVal(v reflect.Value) string {
 				return "perr=nil"
 			}
 			return fmt.Sprintf("perr=%d", v.Interface().(*myErr).k)
+		case "arr":
+			return fmt.Sprintf("arr=%d", v.Index(0).Int())
 		}
 	}
 	return "?" + v.Type().String()
@@ -226,6 +231,18 @@ func callOne(f []string, shared argsOptions) string {
 	}
 	opts := []bigbuff.CallOption{argsOpt}
 	var targets []reflect.Value // pointers whose Elem we inspect afterwards
+	var staleTok []string       // what each target held before the call ("" = its zero value)
+	// in about half of the calls the targets are REUSED ones: they already hold a value (of a type that fits) from an earlier use
+	stale := len(strings.Join(f, " "))%2 == 0
+	staleFor := func(name string) (reflect.Value, bool) {
+		tok := map[string]string{"int": "int=999", "str": "str=999", "any": "int=999", "err": "perr=999", "pint": "pint=999", "sl": "sl=999",
+			"map": "map=999", "ch": "ch=3", "named": "named=999", "perr": "perr=999", "arr": "arr=999"}[name]
+		if tok == "" {
+			return reflect.Value{}, false
+		}
+		v, ok := mkVal(tok)
+		return reflect.ValueOf(v), ok
+	}
 	var sliceTarget reflect.Value
 	switch f[5] {
 	case "none":
@@ -235,6 +252,7 @@ func callOne(f []string, shared argsOptions) string {
 			if tok == "nil" {
 				ts = append(ts, nil)
 				targets = append(targets, reflect.Value{})
+				staleTok = append(staleTok, "")
 				continue
 			}
 			p := strings.SplitN(tok, ":", 2)
@@ -245,9 +263,16 @@ func callOne(f []string, shared argsOptions) string {
 			if !ok {
 				return "skipped"
 			}
+			st := ""
 			switch p[0] {
 			case "p":
 				ptr := reflect.New(t)
+				if stale {
+					if v, ok := staleFor(p[1]); ok {
+						ptr.Elem().Set(v)
+						st = canonVal(ptr.Elem())
+					}
+				}
 				ts = append(ts, ptr.Interface())
 				targets = append(targets, ptr)
 			case "np":
@@ -262,6 +287,7 @@ func callOne(f []string, shared argsOptions) string {
 			default:
 				return "skipped"
 			}
+			staleTok = append(staleTok, st)
 		}
 		opts = append(opts, bigbuff.CallResults(ts...))
 	case "slice":
@@ -315,8 +341,15 @@ func callOne(f []string, shared argsOptions) string {
 		return false
 	}()
 	touched := false
-	for _, t := range targets {
-		if t.IsValid() && !t.Elem().IsZero() {
+	for i, t := range targets {
+		if !t.IsValid() {
+			continue
+		}
+		if i < len(staleTok) && staleTok[i] != "" {
+			if canonVal(t.Elem()) != staleTok[i] {
+				touched = true
+			}
+		} else if !t.Elem().IsZero() {
 			touched = true
 		}
 	}
@@ -362,11 +395,11 @@ func execCallable(t *trace, script []string) {
 	}
 }
 
-var concreteTys = []string{"int", "str", "pint", "sl", "map", "fn", "ch", "named", "perr"}
-var allTys = []string{"int", "str", "any", "err", "pint", "sl", "map", "fn", "ch", "named", "perr"}
+var concreteTys = []string{"int", "str", "pint", "sl", "map", "fn", "ch", "named", "perr", "arr"}
+var allTys = []string{"int", "str", "any", "err", "pint", "sl", "map", "fn", "ch", "named", "perr", "arr"}
 
 func assignableTok(a, b string) bool { return a == b || b == "any" || (b == "err" && a == "perr") }
-func nilableTok(t string) bool       { return t != "int" && t != "str" && t != "named" }
+func nilableTok(t string) bool       { return t != "int" && t != "str" && t != "named" && t != "arr" }
 
 func genValFor(r *rng.R, param string, wellTyped bool) string {
 	// a value token acceptable for param (when wellTyped), or an arbitrary one
